@@ -507,3 +507,19 @@ def c14_accepted_hosts():
     """Controls: the hosts without a violating construct must be accepted."""
     PRE = 'Signal ok1 = ("signal-A", 1);\nSignal ok2 = ok1 + 1;\n'
     return [("host", "func helper(Signal a) { return a + 1; }\n" + PRE + "Signal c = helper(ok1);\nfor it in 0..2 {\n  Signal t = ok2 + it;\n}\nSignal ok3 = ok2 * 2;\n")]
+
+
+def c17_library_scope(tier):
+    """Library functions called from programs whose own names collide with the library's parameter names."""
+    I = 'import "lib/math.facto";\n'
+    X = 'Signal x = ("signal-A", 37);\nSignal y = ("signal-B", -5);\n'
+    P = []
+    P.append(("abs-sign", I + X + "Signal r = abs(y);\nSignal q = sign(y) + sign(x);\n"))
+    P.append(("min-max", I + X + "Signal r = min(x, y);\nSignal q = max(x, y);\n"))
+    P.append(("clamp", I + X + "int low = 50;\nint high = 60;\nSignal r = clamp(x, 0, 10);\nSignal q = clamp(y, -3, 3);\n"))
+    P.append(("lerp-shadow", I + X + "int a = 7;\nint b = 1000;\nSignal r = lerp(10, 20, x);\n"))
+    P.append(("between", I + X + "Signal r = between(x, 0, 100);\nSignal q = between(y, 0, 100);\n"))
+    P.append(("bits-shadow", I + X + "int pos = 3;\nSignal r = set_bit(x, 5);\nSignal q = clear_bit(x, 2);\nSignal p = toggle_bit(x, 0);\nSignal g = get_bit(x, 2);\n"))
+    P.append(("bits-loop-shadow", I + X + "for pos in 1..3 {\n  Signal t = set_bit(x, 6);\n  Entity l = place(\"small-lamp\", pos * 2, 0);\n  l.enable = t > 100;\n}\n"))
+    P.append(("divmod", I + X + "Signal r = div_floor(y, 3 | \"signal-C\");\nSignal q = mod_positive(y, 3 | \"signal-C\");\n"))
+    return P
